@@ -1,4 +1,5 @@
 """C13 - address lookups return exactly the addresses the answers contain (Lookup facet)."""
+import mutators
 import simlib
 
 KEEP = {"init", "call", "sk", "cbb", "crash"}
@@ -7,4 +8,4 @@ FACETS = [("LookupTrace.tla", "LookupTrace.cfg", KEEP, {"send", "recv"})]
 
 def run(ctx):
     gens = [{"module": "GenLookup.tla", "cfg": "Gen_C13_quick.cfg" if ctx.quick else "Gen_C13_thorough.cfg", "name": "bfs"}]
-    simlib.engine_check(ctx, gens, FACETS, labels=("c13.",))
+    simlib.engine_check(ctx, gens, FACETS, labels=("c13.",), selftests=mutators.LOOKUP)
